@@ -14,7 +14,7 @@ def sh(cmd, **kw):
 
 
 def main():
-    args = [a for a in sys.argv[1:] if not a.startswith("--")]
+    args = [a for a in sys.argv[1:] if not a.startswith("--")]  # ids; options: --tier T --seeds 0,1 --wt
     tier = "quick"
     seeds = [0]
     for i, a in enumerate(sys.argv):
@@ -22,6 +22,15 @@ def main():
             tier = sys.argv[i + 1]; args = [x for x in args if x != tier]
         if a == "--seeds":
             seeds = [int(x) for x in sys.argv[i + 1].split(",")]; args = [x for x in args if x != sys.argv[i + 1]]
+    global REPO
+    use_wt = "--wt" in sys.argv
+    env_extra = {}
+    if use_wt:
+        # scratch worktree of /repo HEAD (outside /repo and /verif); the check imports the code from $HGX_REPO
+        wt = "/tmp/seedwt-%d" % os.getpid()
+        sh(["git", "-C", REPO, "worktree", "add", "--detach", wt, "HEAD"])
+        main_repo, REPO = REPO, wt
+        env_extra = {"HGX_REPO": wt}
     if sh(["git", "-C", REPO, "status", "--porcelain", "--untracked-files=no"]).stdout.strip():
         print("refusing: /repo has uncommitted changes"); sys.exit(2)
     ids = args or sorted(os.path.basename(os.path.dirname(p)) for p in glob.glob(os.path.join(VERIF, "seeded", "*", "patch.diff")))
@@ -37,7 +46,7 @@ def main():
             res = []
             for s in seeds:
                 t0 = time.time()
-                r = sh([os.path.join(VERIF, "check"), prop, "--tier", tier], cwd=VERIF, env={**os.environ, "VERIF_SEED": str(s)})
+                r = sh([os.path.join(VERIF, "check"), prop, "--tier", tier], cwd=VERIF, env={**os.environ, **env_extra, "VERIF_SEED": str(s)})
                 vio = [l for l in r.stdout.splitlines() if l.startswith("VIOLATION")]
                 why = [l for l in r.stdout.splitlines() if l.startswith("# ")]
                 res.append((r.returncode, vio[:1], why[:1], time.time() - t0))
@@ -47,11 +56,13 @@ def main():
                          (res[0][2][0] if res[0][2] else "")[:160], sum(x[3] for x in res)))
         finally:
             sh(["git", "-C", REPO, "checkout", "--", "."])
+    if use_wt:
+        sh(["git", "-C", main_repo, "worktree", "remove", "--force", REPO])
     out = ["| seeded change | property | " + tier + " check (seeds " + ",".join(map(str, seeds)) + ") | first reported reason | s |", "|---|---|---|---|---|"]
     for r in rows:
         out.append(f"| {r[0]} | {r[1]} | {r[2]} | {r[3]} | {r[4]:.0f} |")
     print("\n".join(out))
-    if not args:
+    if not args and not use_wt:
         open(os.path.join(VERIF, "seeded", "RESULTS.md"), "w").write("\n".join(out) + "\n")
 
 
